@@ -861,6 +861,18 @@ def gen_code_for_conv(to_type, node, code, codegen):
         code.add((f'conv{from_char}{to_char}',))
 
 
+def gen_code_for_condition(node, code, codegen, negate=False):
+    # Generates code for a (numeric) condition, leaving an INTEGER on
+    # the stack which is zero if the condition is false (or true, if
+    # negate is set) and -1 otherwise. The value is compared to zero in
+    # its own type, so that any non-zero value counts as true, whatever
+    # its type or magnitude.
+    codegen.gen_code_for_node(node, code)
+    code.add((f'push{node.type.type_char}', node.type.py_type(0)))
+    code.add(('cmp',))
+    code.add(('eq',) if negate else ('ne',))
+
+
 def gen_code_for_args(args, param_types, code, codegen):
     for arg, param_type in zip(args, param_types):
         if isinstance(arg, expr.Lvalue):
@@ -1421,18 +1433,15 @@ def gen_loop(node, code, codegen):
 
     code.add(('_label', do_label))
     if node.kind.startswith('do_'):
-        codegen.gen_code_for_node(node.cond, code)
-        gen_code_for_conv(expr.Type.INTEGER, node.cond, code, codegen)
-        if node.kind == 'do_until':
-            code.add(('not',))
+        gen_code_for_condition(
+            node.cond, code, codegen, negate=(node.kind == 'do_until'))
         code.add(('jz', loop_label))
 
     gen_code_for_block(node.body, code, codegen)
 
     if node.kind.startswith('loop_'):
-        codegen.gen_code_for_node(node.cond, code)
-        if node.kind == 'loop_while':
-            code.add(('not',))
+        gen_code_for_condition(
+            node.cond, code, codegen, negate=(node.kind == 'loop_while'))
         code.add(('jz', do_label))
     else:
         code.add(('jmp', do_label))
@@ -1609,8 +1618,7 @@ def gen_if_block(node, code, codegen):
     for cond, body in node.if_blocks:
         else_label = codegen.get_label('else')
 
-        codegen.gen_code_for_node(cond, code)
-        gen_code_for_conv(expr.Type.INTEGER, cond, code, codegen)
+        gen_code_for_condition(cond, code, codegen)
         code.add(('jz', else_label))
 
         if cur_else_stmt and codegen.debug_info_enabled:
@@ -1643,8 +1651,7 @@ def gen_if_stmt(node, code, codegen):
     else_label = codegen.get_label('else')
     endif_label = codegen.get_label('endif')
 
-    codegen.gen_code_for_node(node.cond, code)
-    gen_code_for_conv(expr.Type.INTEGER, node.cond, code, codegen)
+    gen_code_for_condition(node.cond, code, codegen)
     code.add(('jz', else_label))
     gen_code_for_block(node.then_stmts, code, codegen)
     code.add(('jmp', endif_label))
@@ -1938,8 +1945,7 @@ def gen_while_block(node, code, codegen):
     wend_label = codegen.get_label('wend')
 
     code.add(('_label', check_label))
-    codegen.gen_code_for_node(node.cond, code)
-    gen_code_for_conv(expr.Type.INTEGER, node.cond, code, codegen)
+    gen_code_for_condition(node.cond, code, codegen)
     code.add(('jz', wend_label))
 
     code.add(('_label', body_label))
